@@ -1,6 +1,7 @@
 /- Driver.WalDrv — `kvmodel wal`: runs Model/Wal + Model/WalLog on a script. -/
 import Driver.Common
 import Kevo.Model.WalLog
+import Kevo.Model.Retention
 import Kevo.Gen.Consts
 namespace Driver.WalDrv
 open Kevo Kevo.Wal Driver
@@ -60,6 +61,11 @@ def step (l : Log) (ws : List String) : Log × String :=
       | some es => (l, "from ok " ++ showEntries es)
       | none => (l, "from err")
     | none => (l, "bad-op")
+  | ["retain", c, a, m, ages] =>
+    let num := fun (t : String) => (((t.splitOn "=").getD 1 "").toNat?).getD 0
+    let ageList := (((ages.splitOn "=").getD 1 "").splitOn ",").map (fun t => t.toNat?.getD 0)
+    let (l', n) := Kevo.Retention.retain P crc32 l { maxFileCount := num c, maxAge := num a, minSeqKeep := num m } ageList
+    (l', s!"retained {n}")
   | "replaybytes" :: files =>
     match files.mapM parseBytes with
     | some fs => (l, "replay " ++ showDir (replayDir P crc32 fs))
